@@ -36,6 +36,10 @@ def posix_only(spec):
     """Replace windows-flavoured paths by posix ones (JSON output supports POSIX paths)."""
     def fix(v):
         if isinstance(v, M) and v.kind == "path" and v.p[0] == "windows":
+            # (half of them keep their backslashes: in a POSIX path a backslash is an ordinary character of a name -
+            # systemd unit files, 'report\\final.pdf' - and such a path is still a POSIX path after the round trip)
+            if len(v.p[1]) % 2:
+                return M("path", ("posix", v.p[1], "from"))
             return M("path", ("posix", v.p[1].replace("\\", "/"), "str"))
         if isinstance(v, list):
             return [fix(x) for x in v]
